@@ -135,7 +135,12 @@ def check(ctx: Ctx) -> str:
     # lists / dicts of the render data
     from . import c03
 
-    ctx.run_imported("C03", {"R5"}, c03.check)
+    ctx.run_imported("C03", {"R5", "R8"}, c03.check)
+    # an intercepted operator is computed by the function of the same name: `+` by
+    # operator.add, never by an in-place variant that extends a list of the data (rule owned by C02)
+    from . import c02
+
+    ctx.run_imported("C02", {"R2"}, c02.check)
     return __doc__ or ""
 
 
